@@ -1,4 +1,5 @@
 import MpVerif.C09.Lemmas
+import MpVerif.C09.PipelineLemmas
 import MpVerif.Gen.C09Driver
 /-!
 # C09 — a driver run always ends in a well-formed result or a diagnosed failure
@@ -33,9 +34,6 @@ Since the fixes abd397a (codes < 100 → `sol::FAILURE`), f454558 (infeasibility
                 inconsistent header with the problem partially populated.
 * `standalone`  without `-AMPL` and with `wantsol&1 = 0` an error is only printed on stdout (not at
                 all with `wantsol&8`), exit status 0.
-* `fmtintcode`  `throw Error("function {} is not defined", func_index)` (one `int` argument) picks
-                `Error(CStringRef, int c)`: the function number becomes the solve code (≥ 100 kept) and the
-                message is not formatted (`C09_fmtintcode_general`).
 * `exportonly`  `tech:writemodelonly=<file>`: `RunFromNLFile` skips `Solve()` and `Report()`; the run ends
                 with exit status 0, no `.sol`, no message (`C09_exportonly_general`).
 * `ctorcode`    (latent) an `mp::Error` escaping to `RunBackendApp` is turned into the exit status
@@ -143,21 +141,19 @@ theorem C09_hdrdims_general (sc : Scenario) (a : Bool) (w : Nat) (r : Raise) (f 
     obtain ⟨rfl, _⟩ := h
     simp [errFile, errDims, Stage.dimsKnown]
 
-/-- **Code class** (full strength since abd397a / f454558 for every way of raising but one: `Error("fmt {}", n)` with a
-single int argument, see `C09_fmtintcode_general`).
+/-- **Code class — full strength** (since abd397a / f454558; the last exception, `Error("fmt {}", n)` with a single int
+argument, was removed from the tree by 3651d33, see `C09_history_fmtintcode`).
 Whenever a `.sol` is written its code is in the class of the cause: the solver's own code if nothing
 went wrong; 200–299 for infeasibility (also when `MP_INFEAS` is re-raised by `ConstraintKeeper`);
 500–999 for every failure — in particular for `ReadError`, `UnsupportedError`, `Error("fmt", …)`, whose
 `exit_code()` is `EXIT_FAILURE`; the raiser's code (≥ 100) for `Abort(c)` / sol-check. -/
-theorem C09_code_class_partial (sc : Scenario) (e : Ending) (k : Cause) (f : SolFile) (ech : Bool)
-    (h : conclude sc e = .sol f ech) (hk : e.cause = some k)
-    (hint : ∀ a w st r, e = .raised a w st r → r.intArgCodeOK = true) :
+theorem C09_code_class (sc : Scenario) (e : Ending) (k : Cause) (f : SolFile) (ech : Bool)
+    (h : conclude sc e = .sol f ech) (hk : e.cause = some k) :
     codeOK sc.answer k f.code := by
   cases e with
   | info => simp [conclude] at h
   | exported a w => simp [conclude] at h
   | raised a w st r =>
-    have hia := hint a w st r rfl
     simp only [Ending.cause, Option.some.injEq] at hk
     by_cases hr : r = .foreign
     · rw [hr, conclude_foreign] at h; simp at h
@@ -169,11 +165,9 @@ theorem C09_code_class_partial (sc : Scenario) (e : Ending) (k : Cause) (f : Sol
         obtain ⟨rfl, _⟩ := h
         simp only [errFile]
         rw [reportCode_of_raise, ← hk]
-        cases r <;> simp [Raise.cause, codeOK, Raise.intArgCodeOK] at hr hia ⊢
-        · rename_i c
-          by_cases hc0 : 100 ≤ c <;> simp [hc0, codeOK]
-        · rename_i n
-          by_cases hn : 100 ≤ n <;> simp [hn] <;> omega
+        cases r <;> simp [Raise.cause, codeOK] at hr ⊢
+        rename_i c
+        by_cases hc0 : 100 ≤ c <;> simp [hc0, codeOK]
   | finished a w =>
     simp only [Ending.cause, Option.some.injEq] at hk
     subst hk
@@ -182,19 +176,6 @@ theorem C09_code_class_partial (sc : Scenario) (e : Ending) (k : Cause) (f : Sol
     obtain ⟨rfl, _⟩ := h
     simp [codeOK, okFile]
 
-/-- **`fmtintcode`, exactly**: `Error("… {} …", n)` with a single `int` argument is reported with solve code `n`
-whenever `n ≥ 100` — e.g. a call of the undeclared function 250 in an NL file ends as "infeasible" (250). -/
-theorem C09_fmtintcode_general (sc : Scenario) (a : Bool) (w : Nat) (st : Stage) (n : Int) (f : SolFile) (ech : Bool)
-    (h : conclude sc (.raised a w st (.fmtIntArg n)) = .sol f ech) :
-    f.code = (if n ≥ 100 then n else 500) ∧ (Ending.raised a w st (.fmtIntArg n)).cause = some .failure := by
-  rw [conclude_raised sc a w st _ (by simp)] at h
-  cases hi : st.insideRun
-  · rw [hi] at h; simp [Raise.toExn] at h
-  · cases hh : st.handlerAvailable <;> cases hw : wantsFile a w <;> cases ho : sc.out.writable <;>
-      simp [hi, hh, hw, ho] at h
-    obtain ⟨rfl, _⟩ := h
-    simp [errFile, Raise.toExn, Exn.reportCode, solFAILURE, Ending.cause, Raise.cause]
-
 /-- **The code written, exactly** (round 4): for every way of raising, the solve code in a written failure
 `.sol` — the causes the property names: proven infeasible during conversion (`infeas`, `wrappedInfeas`) → 200;
 unsupported construct, missing bounds (`plain` from `ConstraintConversionFailure`), invalid input / options
@@ -202,7 +183,6 @@ unsupported construct, missing bounds (`plain` from `ConstraintConversionFailure
 solution check → 150. -/
 def Raise.reportedCode : Raise → Int
   | .withCode c => if c ≥ 100 then c else 500
-  | .fmtIntArg n => if n ≥ 100 then n else 500
   | .infeas => 200
   | .wrappedInfeas => 200
   | .solCheck => 150
@@ -348,7 +328,7 @@ theorem C09_stderr_partial (sc : Scenario) (e : Ending) (status : Nat)
 theorem C09_ctorcode_general (sc : Scenario) (a : Bool) (w : Nat) (r : Raise) (c : Int)
     (hx : r.toExn = .mpError c) :
     conclude sc (.raised a w .ctor r) = .stderrExit (c % 256).toNat := by
-  simp [conclude, fail, Stage.insideRun, hx, exitStatus]
+  simp [conclude, fail, Stage.insideRun, hx, exitStatus, rbaOutcome]
 
 /-- **No crash** unless the exception is not a `std::exception` (`foreign`, exactly). -/
 theorem C09_crash_iff_foreign (sc : Scenario) (e : Ending) :
@@ -447,7 +427,7 @@ theorem C09_outcome_partial_end (sc : Scenario) (e : Ending) (hreg : Regular sc 
     · cases hd : sc.answer.haveDual <;> cases hp : sc.answer.havePrimal <;>
         simp [GoodEnd, Ending.cause, hreg, ho, codeOK, okFile, hd, hp]
   | raised a w st r =>
-    obtain ⟨hnf, hintarg, hopt, hpop, hwant, hctor⟩ := hreg
+    obtain ⟨hnf, hopt, hpop, hwant, hctor⟩ := hreg
     rw [conclude_raised sc a w st r hnf]
     cases hi : st.insideRun
     · -- constructor stage: RunBackendApp's catch clauses
@@ -472,11 +452,9 @@ theorem C09_outcome_partial_end (sc : Scenario) (e : Ending) (hreg : Regular sc 
               · simp [errDims, dimsKnown_of_handler_ne_options st hh hso hsp]
           have hcls : codeOK sc.answer r.cause r.toExn.reportCode := by
             rw [reportCode_of_raise]
-            cases r <;> simp [Raise.cause, codeOK, Raise.intArgCodeOK] at hnf hintarg ⊢
-            · rename_i c
-              by_cases hc : 100 ≤ c <;> simp [hc, codeOK]
-            · rename_i n
-              by_cases hn : 100 ≤ n <;> simp [hn] <;> omega
+            cases r <;> simp [Raise.cause, codeOK] at hnf ⊢
+            rename_i c
+            by_cases hc : 100 ≤ c <;> simp [hc, codeOK]
           simp [GoodEnd, Ending.cause, hh, hw, ho, errFile, hdn, hcls]
 
 /-- **C09 (partial), stated on scenarios.** -/
@@ -505,7 +483,7 @@ theorem C09_success (sc : Scenario)
                     nprimals := if sc.answer.havePrimal then sc.dims.nvars else 0,
                     complete := true } false := by
   simp [run, ending, faultBefore, hfault, parseFlags_passing _ _ hflags, hstub, hampl,
-    parseOpts_clean _ _ hopts, hobj, hexp, conclude, handleSolution, wantsFile, OutPath.writable, hopen, hflush]
+    parseOpts_clean _ _ hopts, hobj, hexp, conclude, writeOrRetry, handleSolution, wantsFile, OutPath.writable, hopen, hflush]
 
 /-- An offending option token (anywhere in an otherwise clean prefix) ends every run that got as
 far as the header in the option window — with the `wantsol` stored so far. -/
@@ -548,7 +526,6 @@ theorem C09_gen_exit_codes (r : Raise) :
       | .optionError => .mpError Gen.C09.exitCode_optionError
       | .readError => .mpError Gen.C09.exitCode_readError
       | .fmtError => .mpError Gen.C09.exitCode_fmtError
-      | .fmtIntArg n => .mpError (Gen.C09.exitCode_fmtIntArg n)
       | .systemError => .stdExn
       | .stdExn => .stdExn
       | .foreign => .foreign := by
@@ -588,7 +565,7 @@ theorem C09_gen_rba_ladder (sc : Scenario) (a : Bool) (w : Nat) (r : Raise) :
       | .stdExn => .stderrExit Gen.C09.rbaReturn_stdException.toNat
       | .foreign => .crash := by
   refine ⟨by decide, ?_⟩
-  cases hx : r.toExn <;> simp [conclude, fail, Stage.insideRun, hx, Gen.C09.rbaReturn_mpError, Gen.C09.rbaReturn_stdException]
+  cases hx : r.toExn <;> simp [conclude, fail, Stage.insideRun, hx, rbaOutcome, Gen.C09.rbaReturn_mpError, Gen.C09.rbaReturn_stdException]
 
 /-- **wantsol bit tests** of `AppSolutionHandlerImpl::HandleSolution`: when the `.sol` is written, and
 when the message is echoed on stdout. -/
@@ -629,6 +606,126 @@ theorem C09_gen_structure :
     Stage.options.handlerAvailable = true ∧ Stage.options.dimsKnown = false ∧
     Stage.header.handlerAvailable = false ∧ Stage.populate.dimsKnown = false ∧ Stage.body.dimsKnown = true := by
   decide
+
+/-! ## Round 5: the driver as a pipeline — the ending is computed, not given
+
+`runP sc bs` (`Pipeline.lean`) folds the driver's real stage sequence over a state (inside `Run`? handler
+created? what is populated? `wantsol` so far), the environment `bs` saying per abstract stage whether it
+completes or raises.  The theorems below hold for **every** scenario and **every** behaviour list. -/
+
+/-- **The table is the fold.**  What the pipeline leaves behind is what the decision table says for the first
+stage, in execution order, at which the environment raises — so every theorem about `run`/`conclude` in this
+file is a theorem about the pipeline, for all behaviour lists. -/
+theorem C09_pipeline_is_table (sc : Scenario) (bs : Behaviours) : runP sc bs = run (sc.withFaults bs) :=
+  runP_eq_run sc bs
+
+/-- What the environment would do at stages after the first raise (or at stages never reached) is irrelevant. -/
+theorem C09_pipeline_first_raise_decides (sc : Scenario) (bs bs' : Behaviours) (h : firstFault bs = firstFault bs') :
+    runP sc bs = runP sc bs' := by
+  rw [runP_first sc bs, runP_first sc bs', h]
+
+/-- **The property on the pipeline (partial).** -/
+theorem C09_pipeline_outcome_partial (sc : Scenario) (bs : Behaviours)
+    (hreg : Regular (sc.withFaults bs) (ending (sc.withFaults bs))) :
+    Good (sc.withFaults bs) (runP sc bs) := by
+  rw [C09_pipeline_is_table]; exact C09_outcome_partial _ hreg
+
+/-- **Completeness, as an invariant of the fold** — for *any* sequence of steps (not only the driver's), any
+state and any behaviours: whenever the fold ends with a `.sol` and exit status 0, the file is complete and the
+path was writable.  (Induction over the step list; each step can only produce a `.sol` through
+`HandleSolution`.) -/
+theorem C09_fold_sol_complete (sc : Scenario) (bs : Behaviours) (ps : List Step) (st : PState) (f : SolFile) (e : Bool)
+    (h : foldSteps sc bs ps st = .sol f e) : f.complete = true ∧ sc.out.writable = true := by
+  induction ps generalizing st with
+  | nil => simp [foldSteps] at h
+  | cons p ps ih =>
+    simp only [foldSteps] at h
+    cases hs : step sc bs p st with
+    | done o => rw [hs] at h; simp only at h; subst h; exact step_done_sol sc bs p st f e hs
+    | next st' => rw [hs] at h; exact ih st' h
+
+/-- **Crash only through a foreign exception, as an invariant of the fold** — for any step sequence and state:
+if the fold ends in `std::terminate`, the environment raises something that is not a `std::exception` at some
+stage. -/
+theorem C09_fold_crash_needs_foreign (sc : Scenario) (bs : Behaviours) (ps : List Step) (st : PState)
+    (h : foldSteps sc bs ps st = .crash) : ∃ s, look bs s = some .foreign := by
+  have onR : ∀ st r, onRaise sc st r = .crash → r = .foreign := fun st r hc => onRaise_crash sc st r hc
+  induction ps generalizing st with
+  | nil => simp [foldSteps] at h
+  | cons p ps ih =>
+    simp only [foldSteps] at h
+    cases hs : step sc bs p st with
+    | next st' => rw [hs] at h; exact ih st' h
+    | done o =>
+      rw [hs] at h; simp only at h; subst h
+      cases p with
+      | env s =>
+        simp only [step] at hs
+        cases hl : look bs s with
+        | none => rw [hl] at hs; simp at hs
+        | some r =>
+          rw [hl] at hs
+          simp only at hs
+          split at hs
+          · simp at hs
+          · simp only [Ctl.done.injEq] at hs
+            exact ⟨s, by rw [hl, onR _ _ hs]⟩
+      | flags =>
+        simp only [step] at hs
+        split at hs
+        · simp at hs
+        · simp only [Ctl.done.injEq] at hs; exact absurd (onR _ _ hs) (by simp)
+        · split at hs <;> simp at hs
+      | parseOpts =>
+        simp only [step] at hs
+        split at hs
+        · rename_i w r hp
+          simp only [Ctl.done.injEq] at hs
+          have hr := onR _ _ hs
+          obtain ⟨pre, x, post, _, _, _, hx, _⟩ := parseOpts_raises _ _ _ _ hp
+          subst hr
+          cases x <;> simp [Opt.raise] at hx
+        · simp at hs
+      | objno =>
+        simp only [step] at hs
+        split at hs
+        · simp only [Ctl.done.injEq] at hs; exact absurd (onR _ _ hs) (by simp)
+        · simp at hs
+      | exportOnly =>
+        simp only [step] at hs
+        split at hs <;> simp at hs
+      | write =>
+        simp only [step, Ctl.done.injEq] at hs
+        exact absurd hs (writeOrRetry_not_crash _ _ _ _ _ _)
+
+/-- **Dimensions, exactly and without hypothesis** (audit: `C09_dims_partial` excludes the interesting endings).
+Whatever ends the run, the count lines of a written `.sol` are what the problem builder holds *at that point*:
+the header's dimensions once `NLProblemBuilder::OnHeader` has run, `0 0` before (option window), the partial
+values if that step itself throws.  So the clause "dimensions equal those of the NL header" holds exactly for
+the endings outside `optdims` / `hdrdims`, and fails for every ending inside them unless the values coincide. -/
+theorem C09_dims_exact (sc : Scenario) (e : Ending) (f : SolFile) (ech : Bool)
+    (h : conclude sc e = .sol f ech) :
+    (f.ncons, f.nvars) = match e with
+      | .raised _ _ st _ => ((errDims sc st).ncons, (errDims sc st).nvars)
+      | _ => (sc.dims.ncons, sc.dims.nvars) := by
+  cases e with
+  | info => simp [conclude] at h
+  | exported a w => simp [conclude] at h
+  | raised a w st r =>
+    by_cases hr : r = .foreign
+    · rw [hr, conclude_foreign] at h; simp at h
+    · rw [conclude_raised sc a w st r hr] at h
+      cases hi : st.insideRun
+      · rw [hi] at h; cases hx : r.toExn <;> rw [hx] at h <;> simp at h
+      · cases hh : st.handlerAvailable <;> cases hw : wantsFile a w <;> cases ho : sc.out.writable <;>
+          simp [hi, hh, hw, ho] at h
+        obtain ⟨rfl, _⟩ := h
+        simp [errFile]
+  | finished a w =>
+    rw [conclude_finished] at h
+    cases hw : wantsFile a w <;> cases ho : sc.out.writable <;> simp [hw, ho] at h
+    obtain ⟨rfl, _⟩ := h
+    simp [okFile]
 
 /-! ## `tech:writemodelonly` -/
 
@@ -749,11 +846,21 @@ theorem C09_counterexample_standalone :
     run { scBase with ampl := false, opts := [.tok (.wantsol 8), .tok .bad] } = .stdoutOnly 500 false ∧
     ¬ Good { scBase with ampl := false, opts := [.tok .bad] } (run { scBase with ampl := false, opts := [.tok .bad] }) := by decide
 
-/-- an NL file calling the undeclared function 250 (`f250 0`): "function {} is not defined", solve code 250. -/
-theorem C09_counterexample_fmtintcode :
-    run { scBase with fault := some (.body, .fmtIntArg 250) } = .sol ⟨250, 1, 0, 2, 0, true⟩ false ∧
-    ¬ Good { scBase with fault := some (.body, .fmtIntArg 250) } (run { scBase with fault := some (.body, .fmtIntArg 250) }) := by
-  decide
+/-- **History (fixed by 3651d33; was `C09_counterexample_fmtintcode`).**  The overload hazard is still in `mp::Error`:
+a throw of the shape `Error("… {} …", n)` with a single `int` argument selects `Error(CStringRef, int)` (clang's
+overload resolution, `exitCode_fmtIntArg`), and `Run` would pass `n ≥ 100` on as the solve code.  The two throw sites
+that had this shape (`NLProblemBuilder::BeginCall`, `BasicExprFactory::DefineFunction`) now format their message
+first: their objects are built like `MP_RAISE` (generated from the current tree), i.e. they are `.plain` rows and
+are reported with 500. -/
+theorem C09_history_fmtintcode (n : Int) :
+    Gen.C09.exitCode_fmtIntArg n = n ∧
+    Exn.reportCode (.mpError (Gen.C09.exitCode_fmtIntArg n)) = (if n ≥ 100 then n else 500) ∧
+    Gen.C09.exitCode_undefinedFunction = Gen.C09.exitCode_plain ∧
+    Gen.C09.exitCode_redefinedFunction = Gen.C09.exitCode_plain ∧
+    Exn.reportCode (.mpError Gen.C09.exitCode_undefinedFunction) = 500 := by
+  refine ⟨rfl, ?_, by decide, by decide, by decide⟩
+  simp only [Gen.C09.exitCode_fmtIntArg, Exn.reportCode, solFAILURE]
+  by_cases h : n ≥ 100 <;> simp [h]
 
 /-- `recsolver stub -AMPL tech:writemodelonly=m.lp`: nothing is reported at all. -/
 theorem C09_counterexample_exportonly :
@@ -806,16 +913,15 @@ example := C09_dims_run_partial scMessy ⟨500, 7, 0, 9, 0, true⟩ true (by dec
   (by rw [show ending scMessy = .raised false 5 .body .readError by decide]; c09_inst)
   (by rw [show ending scMessy = .raised false 5 .body .readError by decide]; c09_inst)
 example : codeOK scMessy.answer .failure 500 :=
-  C09_code_class_partial scMessy (.raised false 5 .body .readError) .failure ⟨500, 7, 0, 9, 0, true⟩ true (by decide) (by decide) (by c09_inst)
+  C09_code_class scMessy (.raised false 5 .body .readError) .failure ⟨500, 7, 0, 9, 0, true⟩ true (by decide) (by decide)
 example : codeOK scBase.answer .infeasible 200 :=
-  C09_code_class_partial scBase (.raised true 1 .convert .wrappedInfeas) .infeasible ⟨200, 1, 0, 2, 0, true⟩ false (by decide) (by decide) (by c09_inst)
+  C09_code_class scBase (.raised true 1 .convert .wrappedInfeas) .infeasible ⟨200, 1, 0, 2, 0, true⟩ false (by decide) (by decide)
 example : codeOK scBase.answer (.asRaised 567) 567 :=
-  C09_code_class_partial scBase (.raised true 1 .solve (.withCode 567)) _ ⟨567, 1, 0, 2, 0, true⟩ false (by decide) (by decide) (by c09_inst)
+  C09_code_class scBase (.raised true 1 .solve (.withCode 567)) _ ⟨567, 1, 0, 2, 0, true⟩ false (by decide) (by decide)
 example : codeOK scBase.answer .none 0 :=
-  C09_code_class_partial scBase (.finished true 1) .none ⟨0, 1, 1, 2, 2, true⟩ false (by decide) (by decide) (by c09_inst)
+  C09_code_class scBase (.finished true 1) .none ⟨0, 1, 1, 2, 2, true⟩ false (by decide) (by decide)
 example := C09_reported_code_exact scBase true 1 .solve (.withCode 42) ⟨500, 1, 0, 2, 0, true⟩ false (by decide)
 example := C09_complete scMessy (.raised false 5 .body .readError) ⟨500, 7, 0, 9, 0, true⟩ true (by decide)
-example := C09_fmtintcode_general scBase true 1 .body 250 ⟨250, 1, 0, 2, 0, true⟩ false (by decide)
 -- C09_optdims_general / C09_hdrdims_general
 example := C09_optdims_general { scBase with dims := ⟨7, 9⟩ } true 1 .plain ⟨500, 0, 0, 0, 0, true⟩ false (by decide)
 example := C09_hdrdims_general { scBase with dims := ⟨7, 9⟩, partialDims := ⟨0, 9⟩ } true 1 .stdExn ⟨500, 0, 0, 9, 0, true⟩ false (by decide)
@@ -857,6 +963,16 @@ example := C09_suffix_exceptions_swallowed scMessy .readError (by decide)
 example := C09_optfile_unreadable_outcome { scBase with opts := [.tok .ok, .optfile [.wantsol 8] true, .tok .bad], dims := ⟨7, 9⟩ }
   [.tok .ok] [.tok .bad] [.wantsol 8] (by decide) (by decide) (by decide) (by decide) (by decide) (by decide) (by decide) (by decide)
 example := C09_exportonly_run { scBase with justExport := true, opts := [.tok .ok] } (by decide) (by decide) (by decide) (by decide) (by decide) (by decide)
+-- the pipeline: several stages would raise, options contain an unreadable file after the bad token
+example : runP scMessy [(.solve, .foreign), (.convert, .infeas), (.body, .readError), (.convert, .plain)] =
+    .sol ⟨500, 7, 0, 9, 0, true⟩ true := by decide
+example : firstFault [(.solve, .foreign), (.convert, .infeas), (.body, .readError), (.convert, .plain)] = some (.body, .readError) := by decide
+example := C09_pipeline_outcome_partial scMessy [(.solve, .foreign), (.convert, .infeas), (.body, .readError)] (by decide)
+example := C09_pipeline_first_raise_decides scMessy [(.report, .stdExn), (.names, .readError)] [(.names, .readError), (.solve, .foreign)] (by decide)
+example := C09_fold_sol_complete scMessy [(.body, .readError)] pipeline PState.init ⟨500, 7, 0, 9, 0, true⟩ true (by decide)
+example : ∃ s, look [(Stage.names, Raise.foreign), (.report, .plain)] s = some .foreign :=
+  C09_fold_crash_needs_foreign scBase _ pipeline PState.init (by decide)
+example := C09_dims_exact { scBase with dims := ⟨7, 9⟩ } (.raised true 1 .options .plain) ⟨500, 0, 0, 0, 0, true⟩ false (by decide)
 -- parsing loops
 example : (parseOpts [.ok, .wantsol 3, .ok] 0).2 = none := (C09_parseOpts_ok_iff _ _).2 (by decide)
 example : parseOpts [.wantsol 3, .ok, .bad, .wantsol 1] 0 = (3, some .plain) :=
